@@ -454,14 +454,28 @@ fn format_conditional_multiline(
     max_cols: usize,
     indent: usize,
 ) -> String {
-    let cond_str = format_expr_impl(condition, max_cols, indent);
-
-    // Try to fit "if <condition> then" on one line
-    let if_then_prefix = format!("if {} then", cond_str);
-
     let inner_indent = indent + INDENT_SIZE;
 
-    if indent + if_then_prefix.len() <= max_cols {
+    // Try to fit "if <condition> then" on one line. A plain condition whose flat form is
+    // already too long cannot fit, so it is not formatted at this indentation first
+    // (formatting it at both indentations at every level made conditionals nested in the
+    // condition position exponentially slow).
+    let flat_condition = format_single_line(condition);
+    let cannot_fit = !flat_condition.contains('\n')
+        && !contains_comments(condition)
+        && indent + "if ".len() + flat_condition.len() + " then".len() > max_cols;
+    let if_then_prefix = if cannot_fit {
+        None
+    } else {
+        Some(format!(
+            "if {} then",
+            format_expr_impl(condition, max_cols, indent)
+        ))
+    };
+
+    if let Some(if_then_prefix) =
+        if_then_prefix.filter(|prefix| indent + prefix.len() <= max_cols)
+    {
         // Put then/else clauses on new lines
         // Check if else_expr is another conditional (else-if chain)
         if let Expr::Conditional {
